@@ -3,7 +3,7 @@
 Explicit-state search (E1) over the real ``FilesystemIsolation``: a state is the
 history of filesystem operations that reaches it. Every execution builds a fresh
 sandbox tree (file ``a``="A", dir ``d`` with file ``d/b``="B", empty dir ``e``,
-symlink ``l -> a``) under the run's scratch directory, changes into it, enters
+symlink ``l -> a``, file ``newer``="N" whose name extends the creatable ``new``) under the run's scratch directory, changes into it, enters
 ONE ``with FilesystemIsolation():`` block (constructed exactly as
 ``TestCaseExecutor._execute_test_case`` does, with
 ``configuration.filesystem_isolation = True``), performs the history through the
@@ -43,9 +43,12 @@ _RMTREE = shutil.rmtree
 _OS = {n: getattr(os, n) for n in ("mkdir", "symlink", "scandir", "readlink", "listdir", "lstat",
                                    "unlink", "rmdir", "chdir", "getcwd", "makedirs")}
 
-PATHS = ("a", "d", "d/b", "e", "l", "new", "new/x")
+# "newer" is a pre-existing file whose NAME starts with the name of a path the history can create ("new"):
+# name-based (not component-based) containment tests must not confuse the two
+PATHS = ("a", "d", "d/b", "e", "l", "new", "new/x", "newer")
 KIND = {"a": "preexisting-file", "d/b": "preexisting-file", "d": "preexisting-dir",
-        "e": "preexisting-dir", "l": "symlink", "new": "new", "new/x": "new-in-new"}
+        "e": "preexisting-dir", "l": "symlink", "new": "new", "new/x": "new-in-new",
+        "newer": "preexisting-file"}
 
 OSFLAGS = {
     "os.open-rdonly": os.O_RDONLY,
@@ -232,6 +235,8 @@ class Sandbox:
             fh.write("B")
         _OS["mkdir"](os.path.join(self.sb, "e"))
         _OS["symlink"]("a", os.path.join(self.sb, "l"))
+        with _IO_OPEN(os.path.join(self.sb, "newer"), "w") as fh:
+            fh.write("N")
 
 
 PATCHED = (
@@ -360,7 +365,7 @@ def fingerprint(ev, label, dirty_prefix=False, cwd=""):
 
 
 def kind_of(rel):
-    if rel in KIND and not rel.startswith("new"):
+    if rel in KIND and KIND[rel] not in ("new", "new-in-new"):
         return KIND[rel]
     parent = os.path.dirname(rel)
     return "new" if parent == "" or KIND.get(parent) == "preexisting-dir" else "new-in-new"
